@@ -387,15 +387,16 @@ class Expander:
         self.tops.extend(sub.tops)
         params = set(callee.params)
 
-        class Sub(ast.NodeTransformer):
-            def visit_Name(s, n):
-                if getattr(n, '_param', False) and n.id in params:
-                    if n.id in m:
-                        return copy.deepcopy(m[n.id]) if not isinstance(m[n.id], ast.Name) else m[n.id]
-                    if n.id in ('self', 'cls') and bound_method and isinstance(newcall.func, ast.Attribute):
-                        return newcall.func.value
-                return n
-        r = Sub().visit(copy.deepcopy(body))
+        from .sym import clone
+
+        def leaf(n):
+            if isinstance(n, ast.Name) and getattr(n, '_param', False) and n.id in params:
+                if n.id in m:
+                    return clone(m[n.id])
+                if n.id in ('self', 'cls') and bound_method and isinstance(newcall.func, ast.Attribute):
+                    return clone(newcall.func.value)
+            return None
+        r = clone(body, leaf)
         r._inlined_from = callee.qualname
         r._src = orig
         return r
